@@ -19,6 +19,7 @@ WH = {
     "C04": ([], False, True, None),
     "C06": (["content", "alloc", "res"], True, False, None),
     "C10": (["content", "alloc", "res", "struct"], True, True, None),
+    "C11": (["content", "alloc", "res"], True, False, lambda op: op.split()[0] == "cde"),
     "C13": (["content", "alloc", "struct"], True, False, None),
     "C15": (["res"], False, False, None),
     "C16": ([], True, False, lambda op: op.startswith("eq ")),
